@@ -10,6 +10,7 @@ Model driver for C02. One case = one history on a fresh Directory volume:
   put:<B>:<mode>                    PUT through the router          mode = run | k<i> | c<i> | m<j>x<chunk>
                                     (m: context cancelled when WriteBlock has read j chunks of <chunk> bytes from the pipe)
   wb:<B>:<chunk>:<rd>:<limit>:<mode>  WriteBlock with a scripted reader; rd = eof | e<j> | x<j>
+  put2:<B>:<n>:<ja>:<jb>:cancel|finish|kill   two overlapping PUTs of the same block (see the Go driver)
   touch:<B>:<mode>  del:<B>:<lt>:<mode>  untrash:<B>:<mode>  empty:<mode>      mode = run | k<i>
 
 B = <size>.<seed>. After every process op: `<result>,<points reached> ; get:… idx=… ls=…`, ops joined
@@ -221,6 +222,36 @@ def stepOp (st : St) (op : String) (last : Bool) : Option (List (St × Option St
     | m =>
       let (st2, killed, pts) := execMode st1 full.1 m
       some [(st2, seg st2 (if killed then "killed" else code full.2) pts)]
+  | ["put2", bs, cs, jas, jbs, endS] => do
+    -- two overlapping PUTs of the same block: A held after ja chunks, B started and held after jb
+    -- chunks, A runs to its end, then B is cancelled / finishes / the process is killed
+    let b ← parseBody bs
+    let chunk ← cs.toNat?
+    let ja ← jas.toNat?
+    let jb ← jbs.toNat?
+    if chunk == 0 then none
+    let st := st.note b
+    let all := splitChunks chunk b.data
+    if ja > all.length || jb > all.length then none
+    let hp (sfx : Nat) (chunks : List Bytes) (rend : ReaderEnd) (cancelled : Bool) : List Ev × Resp :=
+      handlePut (hashOf st) st.fs
+        ⟨b.h, b.data, nowT, none, [⟨b.h, natDigits sfx, chunks, rend, .none, nowT⟩], cancelled, false⟩
+    let fullA := hp st.sfx all .eof false
+    if !(allPoints fullA.1).any (fun p => p.startsWith "WriteBlock:") then none
+    let cmpLen := (compareEvs st.fs b.h).length
+    let cutA := cmpLen + 3 + ja
+    let cutB := cmpLen + 3 + jb
+    let (rB, resB) : (List Ev × Resp) × String ←
+      if endS == "finish" then some (hp (st.sfx + 1) all .eof false, "200")
+      else if endS == "kill" then some (hp (st.sfx + 1) all .eof false, "")
+      else if endS == "cancel" then
+        if jb < all.length then some (hp (st.sfx + 1) (all.take jb) .err true, "503")
+        else some (hp (st.sfx + 1) all .eof true, "503")
+      else none
+    let b2 := if endS == "kill" then [] else rB.1.drop cutB
+    let evs := fullA.1.take cutA ++ rB.1.take cutB ++ fullA.1.drop cutA ++ b2
+    let st2 := { st with sfx := st.sfx + 2, fs := run st.fs evs }
+    some [(st2, seg st2 (if endS == "kill" then "killed/200" else "200&" ++ resB) (allPoints evs))]
   | ["wb", bs, cs, rd, ls, ms] => do
     let b ← parseBody bs
     let mode ← parseMode ms
